@@ -1,6 +1,8 @@
 """
 C06 -- multi-core runs give the single-core result under every schedule.
 """
+import sys
+
 from sim import engine, gen
 from . import common as C
 
@@ -40,7 +42,20 @@ def evaluate(case, ctx):
         return hv
     if par.exit != 0 and C.is_buffer_too_small(par):
         raise engine.Discard("buffer-too-small")
-    return C.compare_with_reference(case, ref, par)
+    viols = C.compare_with_reference(case, ref, par)
+    # bounded liveness: once the starvation window is over (faults have stopped), the run must
+    # finish within four times the number of messages the protocol needs for ALL the work
+    pol = case["knobs"]["policy"]
+    assign, arrive = ctx.abstract[-1]
+    n_inputs = len(gen.input_paths(case))
+    chunks = len(assign) // max(1, n_inputs)
+    n_out = len(C.outputs_of(case, par)) + 1
+    bound = 4 * (chunks + case["knobs"]["workers"] + 2) * (10 + 2 * n_out)
+    after = par.steps - (pol["window"][1] if pol["kind"] == "starve" else 0)
+    case["meta"]["liveness"] = [par.steps, bound]
+    if after > bound:
+        viols.append(C.V("liveness", f"par: {after} scheduler steps after the end of the starvation window; the protocol needs at most {bound // 4} messages for {chunks} chunks, {case['knobs']['workers']} workers, {n_out} output files"))
+    return viols
 
 
 def nontrivial_key(case, ctx):
@@ -59,10 +74,62 @@ signature = C.base_signature
 sample_view = C.sample_view
 
 
+def conformance(seed, k):
+    """Simulated vs. real execution of the same cases (validates the stubs, DESIGN §6.3)."""
+    import sys
+    from concurrent.futures import ThreadPoolExecutor
+
+    from sim import harness, realrun
+
+    src = next(p for p in sys.path if "cutadapt-verif-src" in p)
+    todo = []
+    for index in range(k):
+        rng = engine.case_rng(seed, "C06conf", index)
+        case = gen.gen_case(rng, {"p_demux": 0.12})
+        files = engine.gen_files(case)
+        ctx = engine.Ctx(case)
+        s1 = C.run_serial(case, ctx, files)
+        if s1.exit != 0:
+            continue
+        sn = C.run_parallel(case, ctx, files)
+        if sn.outcome != "finished" or sn.exit != 0:
+            continue
+        todo.append((index, case, files, s1, sn))
+
+    def one(t):
+        index, case, files, s1, sn = t
+        inputs = set(gen.input_paths(case))
+        r1 = realrun.run_real(gen.build_argv(case, cores=1), files, src)
+        rn = realrun.run_real(gen.build_argv(case, cores=case["knobs"]["workers"]), files, src)
+        return index, realrun.compare(s1, r1, inputs), realrun.compare(sn, rn, inputs)
+
+    agree1 = agreen = 0
+    problems = []
+    with ThreadPoolExecutor(8) as ex:
+        for index, d1, dn in ex.map(one, todo):
+            agree1 += not d1
+            agreen += not dn
+            if d1:
+                problems.append(f"case {index} --cores 1: {d1}")
+            if dn:
+                problems.append(f"case {index} --cores N: {dn}")
+    return {"sim_vs_real_cases": len(todo), "sim_vs_real_agree_cores_1": agree1, "sim_vs_real_agree_cores_N": agreen,
+            "sim_vs_real_disagreements": problems[:5]}, problems
+
+
 def main(seed, tier, args):
+    import json
+    import os
+
     n = args.cases or (1600 if tier == "quick" else 60000)
     budget = args.budget or (100 if tier == "quick" else 900)
-    rc, ev = engine.run_batch(__import__("props.c06", fromlist=["x"]), seed, tier, n, budget)
+    conf, problems = conformance(seed, 10 if tier == "quick" else 150)
+    rc, ev = engine.run_batch(__import__("props.c06", fromlist=["x"]), seed, tier, n, budget, extra_evidence=conf)
+    if problems:
+        for p_ in problems[:5]:
+            print("HARNESS-ERROR: simulated and real execution disagree:", p_[:600], file=sys.stderr)
+        if rc == 0:
+            rc = 2
     c = ev["coverage"]
     print(f"C06 {tier}: {c['evaluations']} cases judged, {c['distinct_nontrivial']} distinct non-trivial, "
           f"{c['distinct_schedule_digests']} distinct schedules, discards {c['discards_by_reason']}, wall {ev['wall_s']}s")
